@@ -30,6 +30,7 @@ package caching
 
 //@ func (*TaintCache).Taint(tc, ctx, targetLabel) (err)
 //@   pure
+//@   ghostset taintRequested["//" + targetLabel.Package + ":" + targetLabel.Name] := true
 
 // C07/C08: the content-addressed store. Write may skip the upload only if the backend already holds the digest.
 //@ func (*Cas).Write(c, ctx, digest, reader) (err)
